@@ -56,7 +56,6 @@ impl MT196 {
 
         verify_parser_complete(&parser)?;
 
-
         Ok(MT196 {
             field_20,
             field_21,
